@@ -5,7 +5,7 @@
     nothing after END, result of the last filter, namespace per node,
     before/after composition. *)
 From EG.lib Require Import Base.
-From EG.model Require Import Pipeline.
+From EG.model Require Import Pipeline PipelineSpec.
 From Coq Require Import Sorting.Sorted.
 Open Scope string_scope.
 Open Scope list_scope.
@@ -188,10 +188,6 @@ Proof. intros q flow res n s last v r fin n' H; induction H; auto. Qed.
 
 (** ** what [next_spec ideal] means *)
 
-(** [j] is a filter node (not END) named [t] located after [i] *)
-Definition later_named (flow : list node) (i j : nat) (t : string) : Prop :=
-  i < j /\ exists nd, nth_error flow j = Some nd /\ is_end nd = false /\ alias_of nd = t.
-
 Lemma run_alias_ideal : forall nd t, t <> END ->
   (run_alias ideal nd =s t) = true <-> (is_end nd = false /\ alias_of nd = t).
 Proof.
@@ -241,12 +237,6 @@ Proof.
     destruct (run_alias ideal x =s t) eqn:E; auto. apply run_alias_ideal in E; auto.
     exfalso. apply (H (k + m) x); [lia | auto | auto].
 Qed.
-
-(** the first filter node named [t] after [i]: every node strictly in between
-    (END nodes included) is not a filter node named [t] *)
-Definition first_later_named (flow : list node) (i j : nat) (t : string) : Prop :=
-  later_named flow i j t /\
-  forall m nd, i < m < j -> nth_error flow m = Some nd -> ~ (is_end nd = false /\ alias_of nd = t).
 
 Lemma next_spec_declarative : forall flow i nd r,
   nth_error flow i = Some nd ->
@@ -389,4 +379,174 @@ Proof.
     destruct (IH (S i) (S n) (res n) (target nd (res n)) (eff_ns nd) H1 H2) as [(_ & _ & Hn) | (_ & Hr)].
     + apply orb_false_iff in Et as [Et _]. apply seqb_neq in Et. contradiction.
     + exact Hr.
+Qed.
+
+(** ** nothing after END *)
+
+Lemma end_prefix_visit : forall q res nd tl i n rslt next act r nx,
+  (forall l', loop q res (nd :: l') i n rslt next act =
+              visit (i, eff_ns nd) (loop q res l' (S i) (S n) r nx (eff_ns nd))) ->
+  EndPrefix q res tl (S i) (S n) r nx (eff_ns nd) (loop q res tl (S i) (S n) r nx (eff_ns nd)) ->
+  EndPrefix q res (nd :: tl) i n rslt next act
+            (visit (i, eff_ns nd) (loop q res tl (S i) (S n) r nx (eff_ns nd))).
+Proof.
+  intros q res nd tl i n rslt next act r nx Hstep (k & ndk & Hk & Hc & Hle & Heq).
+  exists (S k), ndk. replace (i + S k) with (S i + k) by lia. split; [exact Hk|]. split; [|split].
+  - destruct Hc as [[H1 H2] | (H1 & [a Ha] & H3 & H4)].
+    + left. split; auto. simpl visits. constructor; [simpl; lia | auto].
+    + right. split; auto. split; [exists a; simpl; auto | auto].
+  - simpl visits. constructor; [simpl; lia | auto].
+  - intros tail'. change (firstn (S (S k)) (nd :: tl) ++ tail') with (nd :: (firstn (S k) tl ++ tail')).
+    rewrite Hstep, Heq. reflexivity.
+Qed.
+
+Lemma loop_end_prefix : forall q res l i n rslt next act,
+  saw_end (loop q res l i n rslt next act) = true ->
+  EndPrefix q res l i n rslt next act (loop q res l i n rslt next act).
+Proof.
+  intros q res l; induction l as [|nd tl IH]; intros i n rslt next act.
+  - simpl. discriminate.
+  - simpl loop.
+    destruct (negb (next =s "") && negb (next =s run_alias q nd)) eqn:Eskip.
+    { intros Hs. destruct (IH (S i) n rslt next act Hs) as (k & ndk & Hk & Hc & Hle & Heq).
+      exists (S k), ndk. replace (i + S k) with (S i + k) by lia.
+      repeat split; auto.
+      intros tail'. change (firstn (S (S k)) (nd :: tl) ++ tail') with (nd :: (firstn (S k) tl ++ tail')).
+      simpl loop. rewrite Eskip. apply Heq. }
+    destruct (is_end nd) eqn:Ee.
+    { intros _. exists 0, nd. simpl. repeat split; auto.
+      intros tail'. rewrite Eskip, Ee. reflexivity. }
+    destruct (res n =s "") eqn:Er.
+    { intros Hs. apply end_prefix_visit.
+      - intros l'. simpl loop. rewrite Eskip, Ee, Er. reflexivity.
+      - apply IH. exact Hs. }
+    destruct ((target nd (res n) =s "") || (target nd (res n) =s END)) eqn:Et.
+    { intros _. exists 0, nd. split; [reflexivity|]. split; [|split].
+      - right. split; auto. split; [exists (eff_ns nd); left; f_equal; lia|].
+        split; [apply seqb_neq; auto|]. simpl.
+        apply orb_true_iff in Et as [Et | Et]; apply seqb_eq in Et; auto.
+      - simpl. constructor; [simpl; lia | constructor].
+      - intros tail'. simpl. rewrite Eskip, Ee, Er, Et. reflexivity. }
+    intros Hs. apply end_prefix_visit.
+    + intros l'. simpl loop. rewrite Eskip, Ee, Er, Et. reflexivity.
+    + apply IH. exact Hs.
+Qed.
+
+(** ** HandleWithBeforeAfter *)
+Local Opaque do_handle.
+Lemma hba_composition : forall q res before main after n act,
+  let ob := side_run q res before n act in
+  let om := do_handle q res main (n_after ob n) (act_after ob act) in
+  let oa := side_run q res after (ninv om) (active om) in
+  let h := hba q res before main after n act in
+  (ended ob = true ->
+     hvisits h = tagv_opt 0 ob /\ hsaw_end h = true /\ hresult h = res_after ob "" /\ hninv h = n_after ob n) /\
+  (ended ob = false -> saw_end om = true ->
+     hvisits h = tagv_opt 0 ob ++ tagv 1 om /\ hsaw_end h = true /\ hresult h = result om /\ hninv h = ninv om) /\
+  (ended ob = false -> saw_end om = false ->
+     hvisits h = tagv_opt 0 ob ++ tagv 1 om ++ tagv_opt 2 oa /\ hsaw_end h = ended oa /\
+     hresult h = res_after oa (result om) /\ hninv h = n_after oa (ninv om)).
+Proof.
+  intros q res before main after n act. cbn zeta. unfold hba.
+  destruct before as [b|]; simpl side_run; simpl ended; simpl n_after; simpl act_after; simpl tagv_opt; simpl res_after.
+  - destruct (saw_end (do_handle q res b n act)) eqn:Eb.
+    + split; [|split]; [intros _ | discriminate | discriminate]. simpl. auto.
+    + match goal with |- context [if saw_end ?x then _ else _] => destruct (saw_end x) eqn:Em end.
+      * split; [|split]; [discriminate | intros _ _ | intros _; discriminate]. simpl. auto.
+      * split; [|split]; [discriminate | intros _; discriminate | intros _ _].
+        destruct after as [a|]; simpl.
+        -- rewrite app_assoc. auto.
+        -- rewrite app_nil_r. try rewrite Em. auto.
+  - match goal with |- context [if saw_end ?x then _ else _] => destruct (saw_end x) eqn:Em end.
+    + split; [|split]; [discriminate | intros _ _ | intros _; discriminate]. simpl. auto.
+    + split; [|split]; [discriminate | intros _; discriminate | intros _ _].
+      destruct after as [a|]; simpl.
+      * auto.
+      * rewrite app_nil_r. try rewrite Em. auto.
+Qed.
+Local Transparent do_handle.
+
+(** result of the last filter, across the three flows *)
+Lemma do_handle_result : forall q res flow n act,
+  let o := do_handle q res flow n act in
+  ninv o = n + List.length (visits o) /\
+  result o = match List.length (visits o) with 0 => "" | S k => res (n + k) end.
+Proof. intros. apply loop_result. Qed.
+
+Lemma do_handle_done_result : forall q res flow n act,
+  fin_of (do_handle q res flow n act) = SDone -> result (do_handle q res flow n act) = "".
+Proof.
+  intros q res flow n act H. unfold fin_of in H.
+  destruct (saw_end (do_handle q res flow n act)) eqn:Es; [discriminate|].
+  destruct (pending (do_handle q res flow n act) =s "") eqn:Ep; [|discriminate].
+  apply seqb_eq in Ep.
+  destruct (loop_done_result q res flow 0 n "" "" act Es Ep) as [(_ & Hr & _) | (_ & Hr)]; exact Hr.
+Qed.
+
+Lemma nofell_done : forall o, saw_end o = false -> fin_of o <> SFell -> fin_of o = SDone.
+Proof.
+  intros o Hs Hf. unfold fin_of in *. rewrite Hs in *. destruct (pending o =s ""); congruence.
+Qed.
+
+Lemma last_res_app : forall (res : nat -> string) n L1 L2 r2,
+  match L1 with 0 => "" | S k => res (n + k) end = "" ->
+  r2 = match L2 with 0 => "" | S k => res (n + L1 + k) end ->
+  r2 = match L1 + L2 with 0 => "" | S k => res (n + k) end.
+Proof.
+  intros res n L1 L2 r2 H1 H2. destruct L2 as [|k].
+  - rewrite Nat.add_0_r. congruence.
+  - rewrite H2. replace (L1 + S k) with (S (L1 + k)) by lia. f_equal. lia.
+Qed.
+
+Lemma tagv_length : forall f o, List.length (tagv f o) = List.length (visits o).
+Proof. intros. unfold tagv. apply map_length. Qed.
+
+Lemma hba_result : forall q res before main after n act,
+  let ob := side_run q res before n act in
+  let om := do_handle q res main (n_after ob n) (act_after ob act) in
+  let h := hba q res before main after n act in
+  match ob with Some r => fin_of r <> SFell | None => True end ->
+  (ended ob = false -> fin_of om <> SFell) ->
+  hninv h = n + List.length (hvisits h) /\
+  hresult h = match List.length (hvisits h) with 0 => "" | S k => res (n + k) end.
+Proof.
+  intros q res before main after n act. cbn zeta.
+  pose proof (hba_composition q res before main after n act) as HC. cbn zeta in HC.
+  set (ob := side_run q res before n act) in *.
+  set (om := do_handle q res main (n_after ob n) (act_after ob act)) in *.
+  set (oa := side_run q res after (ninv om) (active om)) in *.
+  set (h := hba q res before main after n act) in *.
+  intros Hb Hm. destruct HC as (HA & HB1 & HB2).
+  (* facts about the before flow *)
+  assert (Fb : n_after ob n = n + List.length (tagv_opt 0 ob) /\
+               res_after ob "" = match List.length (tagv_opt 0 ob) with 0 => "" | S k => res (n + k) end).
+  { unfold ob, side_run. destruct before as [b|]; simpl.
+    - rewrite tagv_length. apply do_handle_result.
+    - split; [lia | reflexivity]. }
+  destruct Fb as [Fb1 Fb2].
+  destruct (ended ob) eqn:Eb.
+  - destruct (HA eq_refl) as (-> & _ & -> & ->). auto.
+  - assert (Eb0 : match List.length (tagv_opt 0 ob) with 0 => "" | S k => res (n + k) end = "").
+    { rewrite <- Fb2. unfold ob, side_run in *. destruct before as [b|]; simpl in *; auto.
+      apply do_handle_done_result. apply nofell_done; auto. }
+    destruct (do_handle_result q res main (n_after ob n) (act_after ob act)) as [Fm1 Fm2].
+    fold om in Fm1, Fm2. rewrite Fb1 in Fm1, Fm2.
+    assert (Fm2' : result om = match List.length (tagv_opt 0 ob) + List.length (visits om) with 0 => "" | S k => res (n + k) end).
+    { apply last_res_app; auto. }
+    destruct (saw_end om) eqn:Em.
+    + destruct (HB1 eq_refl eq_refl) as (-> & _ & -> & ->).
+      rewrite app_length, tagv_length. split; [lia | exact Fm2'].
+    + destruct (HB2 eq_refl eq_refl) as (-> & _ & -> & ->).
+      assert (Em0 : result om = "").
+      { apply do_handle_done_result. apply nofell_done; auto. }
+      rewrite !app_length, tagv_length.
+      unfold oa, side_run. destruct after as [a|]; simpl.
+      * rewrite tagv_length.
+        destruct (do_handle_result q res a (ninv om) (active om)) as [Fa1 Fa2].
+        split; [lia|]. rewrite Nat.add_assoc.
+        apply last_res_app.
+        -- rewrite <- Fm2'. exact Em0.
+        -- rewrite Fa2. destruct (List.length (visits (do_handle q res a (ninv om) (active om)))); auto.
+           rewrite Fm1. f_equal. lia.
+      * rewrite Nat.add_0_r. split; [lia | exact Fm2'].
 Qed.
